@@ -265,6 +265,7 @@ def build_corpus(app):
     add('put traits', op='rp_traits_put', v=39, u='p3', gen=g('p3'), traits=['CUSTOM_T1', 'STORAGE_DISK_SSD'])
     add('delete traits', op='rp_traits_del', v=39, u='p3')
     add('put aggregates (new uuids)', op='agg_put', v=39, u='p3', gen=g('p3'), aggs=['agg2', 'agg3'])
+    add('put aggregates (one kept, one never seen)', op='agg_put', v=39, u='p3', gen=g('p3'), aggs=['agg1', 'agg5'])
     add('put aggregates (two never seen)', op='agg_put', v=39, u='p3', gen=g('p3'), aggs=['agg3', 'agg4'])
     add('put aggregates (legacy)', op='agg_put', v=18, u='p1', gen=-1, aggs=['agg4', 'agg1'])
     add('create provider under parent', op='rp_create', v=39, u='p5', name='p5', parent='p4')
